@@ -291,12 +291,12 @@ def verified_readers(facts):
     return ver
 
 
-def check_recovery_verifies(ctx, facts):
+def check_recovery_verifies(ctx, facts, rid="C07.3"):
     b = facts.body("walrus::Walrus::startup_chore")
     F = "walrus::Walrus::startup_chore"
     ver = verified_readers(facts)
     if "block::Block::read" not in ver:
-        ctx.violate("C07.3", "block::Block::read", "reader-not-verified", None, None, "Block::read can return Ok without the payload checksum having been compared")
+        ctx.violate(rid, "block::Block::read", "reader-not-verified", None, None, "Block::read can return Ok without the payload checksum having been compared")
     D = facts.const_val("config::DEFAULT_BLOCK_SIZE")
     n = 0
     reads = [c for c in b.calls() if common.short_fn(strip_generics(c.node.get("callee") or "")) in ver or re.search(r"block::Block::\w+$", strip_generics(c.node.get("callee") or ""))]
@@ -332,12 +332,12 @@ def check_recovery_verifies(ctx, facts):
             n += 1
             bad = sorted(c_ for c_ in calls if c_ not in ver)
             if bad:
-                ctx.violate("C07.3", F, "recovery-counts-unverified-entry:" + bad[0].split("::")[-1], b.relfile, site.line,
+                ctx.violate(rid, F, "recovery-counts-unverified-entry:" + bad[0].split("::")[-1], b.relfile, site.line,
                             "the recovery scan advances `%s` by a size obtained from %s, which does not compare the payload checksum: a header whose payload was never written (a "
                             "crash between the two, or a rolled-back batch) is counted into the block" % (b.local_name(tgt), ", ".join(bad)))
             else:
-                ctx.ok("C07.3", F, "`%s` advances only by the size of a checksum-verified read" % b.local_name(tgt), b.relfile, site.line)
-    ctx.floor("C07.3", "advances of the recovery entry scan", n, 2)
+                ctx.ok(rid, F, "`%s` advances only by the size of a checksum-verified read" % b.local_name(tgt), b.relfile, site.line)
+    ctx.floor(rid, "advances of the recovery entry scan", n, 2)
 
 
 def check_open_errors(ctx, facts):
